@@ -170,7 +170,9 @@ class Ctx:
                 keep = []
                 for a in args:
                     a = str(a)
-                    if a.startswith(self.out) and os.path.isfile(a) and os.path.getsize(a) < 64 * 1024 * 1024 and "log" not in os.path.basename(a):
+                    if a.startswith(os.path.join(VERIF, "out", "replay")) and os.path.isfile(a):      # already a kept copy (this is a replay)
+                        keep.append(a)
+                    elif a.startswith(self.out) and os.path.isfile(a) and os.path.getsize(a) < 64 * 1024 * 1024 and "log" not in os.path.basename(a):
                         dst = os.path.join(VERIF, "out", "replay", "%s%s_died_%s" % (self.pid, self.tag, os.path.basename(a)))
                         shutil.copy(a, dst)
                         keep.append(dst)
